@@ -41,7 +41,7 @@ def snapshot_isolation(chk: Check, rule: str = 'PROV-snapshot-isolation') -> Non
     from .common import copy_protocol_is_deep
     copy_protocol_is_deep(chk, rule)
     # 1. snapshot isolation -- save side
-    ms = prog.view(mem.methods['save_checkpoint'])
+    ms = prog.view(mem.vmethods['save_checkpoint'])
     stores = [n for n in ast.walk(ms.node) if isinstance(n, ast.Assign) and isinstance(n.targets[0], ast.Subscript)]
     ok = False
     from ..rules import Resolver
@@ -77,7 +77,7 @@ def snapshot_isolation(chk: Check, rule: str = 'PROV-snapshot-isolation') -> Non
                 seen_copy |= is_copy(v)
     ok &= seen_copy
     chk.ob(rule, bi, ok, 'Bundle(dereference=True) deep-copies the saved state', kind='bundle-dereference')
-    pst = prog.view(pic.methods['save_checkpoint'])
+    pst = prog.view(pic.vmethods['save_checkpoint'])
     cfg = cfg_of(pst)
     dumps = [n for n in cfg.nodes if any(isinstance(c, ast.Call) and norm(c.func) in ('pickle.dump', 'pickle.dumps') for c in (walk_shallow(n.expr()) if n.expr() is not None else []))]
     ok = len(dumps) == 1 and cfg.must_pass(cfg.entry, [cfg.exit], lambda m: m in dumps, edge_ok=no_exc)
@@ -90,7 +90,7 @@ def snapshot_isolation(chk: Check, rule: str = 'PROV-snapshot-isolation') -> Non
 
     # 1. snapshot isolation -- load side: the returned bundle is fresh, not the persister's own object
     for cls in (mem, pic):
-        lf = prog.view(cls.methods['load_checkpoint'])
+        lf = prog.view(cls.vmethods['load_checkpoint'])
         rets = [r for r in ast.walk(lf.node) if isinstance(r, ast.Return) and r.value is not None]
         ok = bool(rets)
         detail = []
@@ -116,10 +116,10 @@ def run(chk: Check) -> None:
     snapshot_isolation(chk)
 
     # 2. one key function
-    fp = prog.view(pic.methods.get('_pickle_filepath'))
+    fp = prog.view(pic.vmethods.get('_pickle_filepath'))
     chk.need(fp is not None, 'PicklePersister._pickle_filepath not found')
     for name in ('save_checkpoint', 'load_checkpoint', 'delete_checkpoint'):
-        f = prog.view(pic.methods[name])
+        f = prog.view(pic.vmethods[name])
         cs = [c for c in calls_in_func(f, '_pickle_filepath')]
         if name == 'save_checkpoint':
             want = [f'{f.params[1]}.pid', f.params[2]]
@@ -164,26 +164,26 @@ def run(chk: Check) -> None:
     c = [x for x in calls_in_func(fp, 'pickle_filename')]
     chk.ob('SIB-key-function', fp, len(c) == 1 and [norm(a) for a in c[0].args] == fp.params[1:3] and any('self._pickle_directory' in norm(a) for j in calls_in_func(fp, 'join') for a in j.args),
            'the path is <directory>/<name(pid, tag)>', kind='path-from-name')
-    gp = prog.view(pic.methods['get_process_checkpoints'])
+    gp = prog.view(pic.vmethods['get_process_checkpoints'])
     from ..rules import built_sequence
     seq = built_sequence(gp)
     ok = seq is not None and len(seq.gens) == 1 and seq.filters() in ([f'<item>.pid == {gp.params[1]}'], [f'{gp.params[1]} == <item>.pid']) and \
         isinstance(seq.elt, ast.Name) and norm(seq.elt) == norm(seq.gens[0][0])
     chk.ob('SIB-key-function', gp, ok, 'the checkpoints of a process are those whose pid equals the given pid', kind='filter-by-pid')
-    mg = prog.view(mem.methods['get_process_checkpoints'])
+    mg = prog.view(mem.vmethods['get_process_checkpoints'])
     ok = any(isinstance(n, ast.Subscript) and norm(n) == f'self._checkpoints[{mg.params[1]}]' for n in ast.walk(mg.node))
     chk.ob('SIB-key-function', mg, ok, 'in memory: the tags stored under that pid', kind='filter-by-pid')
-    ml = prog.view(mem.methods['load_checkpoint'])
+    ml = prog.view(mem.vmethods['load_checkpoint'])
     ok = any(isinstance(n, ast.Subscript) and norm(n) == f'self._checkpoints[{ml.params[1]}][{ml.params[2]}]' for n in ast.walk(ml.node))
     chk.ob('SIB-key-function', ml, ok, 'in memory: load reads the entry [pid][tag]', kind='keyed-by-both')
-    ms = prog.view(mem.methods['save_checkpoint'])
+    ms = prog.view(mem.vmethods['save_checkpoint'])
     stores = [n for n in ast.walk(ms.node) if isinstance(n, ast.Assign) and isinstance(n.targets[0], ast.Subscript)]
     ok = len(stores) == 1 and norm(stores[0].targets[0]) == f'self._checkpoints.setdefault({ms.params[1]}.pid, {{}})[{ms.params[2]}]'
     chk.ob('SIB-key-function', ms, ok, 'in memory: save writes the entry [process.pid][tag]', kind='keyed-by-both')
 
     # 3. idempotent delete
     for cls in (mem, pic):
-        df = prog.view(cls.methods['delete_checkpoint'])
+        df = prog.view(cls.vmethods['delete_checkpoint'])
         tries = [t for t in ast.walk(df.node) if isinstance(t, ast.Try)]
         ok = False
         for t in tries:
@@ -197,24 +197,27 @@ def run(chk: Check) -> None:
             acts = [s for s in w.body if any(isinstance(x, ast.Delete) or (isinstance(x, ast.Call) and last_name(x) in ('remove', 'unlink', 'pop')) for x in ast.walk(s))]
             ok = ok or (bool(sup) and bool(acts))
         chk.ob('PAIR-idempotent-delete', df, ok, f'{cls.name}.delete_checkpoint tolerates a checkpoint that does not exist', kind='missing-tolerated')
-    md = prog.view(mem.methods['delete_process_checkpoints'])
+    md = prog.view(mem.vmethods['delete_process_checkpoints'])
     dels = [n for n in ast.walk(md.node) if isinstance(n, ast.Delete)]
     ok = len(dels) == 1 and norm(dels[0].targets[0]) == f'self._checkpoints[{md.params[1]}]'
+    # ``self._checkpoints.pop(pid, None)`` is the same removal, tolerant of a missing entry
+    pops = [c for c in calls_in_func(md, 'pop') if norm(c.func) == 'self._checkpoints.pop']
+    ok = ok or (not dels and len(pops) == 1 and len(pops[0].args) == 2 and norm(pops[0].args[0]) == md.params[1])
     ff2 = chk.ctx.facts.analyse(md)
     chk.ob('PAIR-idempotent-delete', md, ok, 'in memory: deleting a process\'s checkpoints removes exactly that pid\'s entry', kind='only-that-pid')
-    pd = prog.view(pic.methods['delete_process_checkpoints'])
+    pd = prog.view(pic.vmethods['delete_process_checkpoints'])
     loop = [l for l in ast.walk(pd.node) if isinstance(l, ast.For)]
     ok = len(loop) == 1 and norm(loop[0].iter) == f'self.get_process_checkpoints({pd.params[1]})' and any(
         isinstance(c, ast.Call) and norm(c.func) == 'self.delete_checkpoint' and [norm(a) for a in c.args] == ['checkpoint.pid', 'checkpoint.tag'] for c in ast.walk(loop[0]))
     chk.ob('PAIR-idempotent-delete', pd, ok, 'pickle: deleting a process\'s checkpoints deletes each of its (pid, tag) files', kind='only-that-pid')
 
     # 4. (informational) abstract interface implemented
-    abstract = [n for n, f in base.methods.items() if f.has_decorator('abstractmethod')]
+    abstract = [n for n, f in base.vmethods.items() if f.has_decorator('abstractmethod')]
     for cls in (mem, pic):
         missing = [a for a in abstract if a not in cls.methods]
         chk.ob('SIB-interface', cls.qualname, not missing, f'{cls.name} implements every abstract method of Persister (missing: {missing})', kind='implements-all')
         for a in abstract:
-            if a in cls.methods and prog.view(cls.methods[a]).params != prog.view(base.methods[a]).params:
-                chk.info('SIB-interface', f'{cls.name}.{a} parameters {prog.view(cls.methods[a]).params} differ from the abstract {prog.view(base.methods[a]).params}')
+            if a in cls.methods and prog.view(cls.vmethods[a]).params != prog.view(base.vmethods[a]).params:
+                chk.info('SIB-interface', f'{cls.name}.{a} parameters {prog.view(cls.vmethods[a]).params} differ from the abstract {prog.view(base.vmethods[a]).params}')
     chk.assumptions.append('equivalence of the two persisters over histories (exception types for a missing checkpoint differ: KeyError vs FileNotFoundError), listing order and ids '
                            'containing the separator are not decided')
